@@ -814,6 +814,7 @@ def gen_algo_case(seed, idx, algo=None, force=None, monitors_on=True, T=None, ho
                     case.fail("C03", sig, det, step="init", algo=ad.name, via="algorithm", kind=kind)
         if "after_init" in hooks:
             hooks["after_init"](ctx)
+        c03_mark = [0]
         for i in range(T if not force.get("max_rounds") else min(T, force["max_rounds"])):
             t = labels[i] if labels else t0 + i
             if i in query_rounds:
@@ -889,6 +890,14 @@ def gen_algo_case(seed, idx, algo=None, force=None, monitors_on=True, T=None, ho
                 for p_ in parts():
                     for sig, det in monitors.c03_tree(p_):
                         case.fail("C03", sig, det, step=i, algo=ad.name, via="algorithm", kind=kind); break
+                # every expansion the algorithm issued must be a legal op of the theorem `ops_WF`:
+                # target a leaf, newlayer = (the leaf is at the current deepest level)
+                for c_ in glog[c03_mark[0]:]:
+                    if not c_["was_leaf"] or not c_["flag_ok"]:
+                        case.fail("C03", "illegal-expansion", f"make_children on cell {c_['parent']} (was a leaf: {c_['was_leaf']}, newlayer flag right: {c_['flag_ok']})",
+                                  step=i, algo=ad.name, via="algorithm", kind=kind)
+                        break
+                c03_mark[0] = len(glog)
             if "after_recv" in hooks:
                 hooks["after_recv"](ctx, i, pt, r)
         if case.stopped is None:
